@@ -4,6 +4,7 @@ CONSTANTS
   K = 3
   MaxSteps = 8
   SeedOnOpen = TRUE
+  SeedFromBucketMark = TRUE
   MetaKeepsMark = FALSE
 VIEW View
 CHECK_DEADLOCK FALSE
